@@ -249,6 +249,51 @@ def make_h(tier):
     return h
 
 
+def h_targets(ctx):
+    """The same files given to the command as one directory, as several directories, as files, or mixed:
+    every occurrence of a shared run is covered whichever way the targets are split."""
+    import json
+    import os
+    import src.linter_config.ignore as ign
+    from click.testing import CliRunner
+    from src.cli_main import cli
+    lang = ctx.pick("lang", ("python", "typescript"))
+    ext = ".py" if lang == "python" else ".ts"
+    split = ctx.pick("targets", ("project-dir", "two-dirs", "file+dir", "dir+file", "two-files", "dir-and-file-inside-it"))
+    d = Path(tempfile.mkdtemp(prefix="c03t-"))
+    cwd0 = os.getcwd()
+    try:
+        (d / ".git").mkdir()
+        (d / ".thailint.yaml").write_text("dry:\n  enabled: true\n  min_duplicate_lines: 3\n  min_duplicate_tokens: 1\n  detect_duplicate_constants: false\n")
+        occ = {}
+        for sub, tag in (("one", "a"), ("two", "b")):
+            (d / sub).mkdir()
+            L, o = build_file(lang, tag, [1 if tag == "a" else 2], 4, "plain")
+            (d / sub / (tag + ext)).write_text("\n".join(L) + "\n")
+            occ[sub + "/" + tag + ext] = o
+        targets = {"project-dir": ["."], "two-dirs": ["one", "two"], "file+dir": ["one/a" + ext, "two"], "dir+file": ["one", "two/b" + ext],
+                   "two-files": ["one/a" + ext, "two/b" + ext], "dir-and-file-inside-it": [".", "one/a" + ext]}[split]
+        os.chdir(d)
+        ign.clear_ignore_parser_cache()
+        r = CliRunner().invoke(cli, ["dry", "--format", "json"] + targets)
+    finally:
+        os.chdir(cwd0)
+        shutil.rmtree(d, True)
+        ign.clear_ignore_parser_cache()
+    ctx.require("run-completes", r.exit_code in (0, 1), code=r.exit_code, out=r.output[-200:])
+    if r.exit_code not in (0, 1):
+        return
+    doc = json.loads(r.output[r.output.index("{"):])
+    got = [(str(Path(v["file_path"])).replace(str(d) + os.sep, ""), v["line"]) for v in doc["violations"]]
+    ctx.cover("reported" if got else "silent")
+    for rel, o in occ.items():
+        for (a, b) in o:
+            hits = [g for g in got if g[0].endswith(rel) and a <= g[1] <= b]
+            ctx.require("every-occurrence-is-covered-however-the-targets-are-split", len(hits) >= 1, file=rel, lines=[a, b], targets=targets, got=got)
+            ctx.require("a-file-reached-through-two-targets-is-reported-once", len(hits) <= 2, file=rel, targets=targets, got=got)
+    ctx.require("no-finding-reported-twice", len(got) == len(set(got)), got=got, targets=targets)
+
+
 # ------------------------------------------------------------------ K1: interval logic with symbolic line numbers
 def h_intervals(ctx):
     """De-overlapping of rolling-hash windows and of violations, with every start line a solver integer."""
@@ -383,6 +428,10 @@ def obligations(tier):
                       "DRYViolationBuilder.build_violation/_get_location_refs/_build_message", "ViolationFilter.filter_overlapping/_overlaps/_extract_line_count"],
            bounds="1-3 windows with start lines symbolic in [1,40] and a common length symbolic in [1,6]; two violation lines symbolic in [1,60]; file assignment forked",
            timeout=300, workers=8, must_cover=("dropped-some", "kept-all")),
+        Ob(name="K3c-targets-split-across-arguments", engine="pathex", harness=h_targets,
+           functions=["thailint dry <targets> (in-process CLI)", "execute_linting_on_paths / separate_files_and_dirs", "DRYRule.check/finalize"],
+           bounds="forked: 2 languages x 6 ways of naming the same two files (project directory, two directories, file + directory, two files, directory plus a file inside it)",
+           timeout=300, workers=6, must_cover=("reported",)),
         Ob(name="K3b-periodic-runs-overlapping-windows", engine="pathex", harness=h_periodic,
            functions=["ViolationGenerator._collect_violations/_meets_min_occurrences", "ViolationDeduplicator.deduplicate_blocks/_remove_overlaps_from_file/_blocks_overlap",
                       "cache_query duplicate-hash selection (sqlite)", "DRYViolationBuilder.*"],
